@@ -84,6 +84,19 @@ example : (exec Store.init stmtTupleTwice).2 =
     .done 1 .committed [⟨⟨.concept, 1⟩, .create, 1⟩, ⟨⟨.concept, 2⟩, .create, 1⟩, ⟨⟨.proposition, 1⟩, .create, 1⟩] ∧
     (exec Store.init stmtTupleTwice).1.elems ⟨.proposition, 2⟩ = none := by decide
 
+/-- a PURGE of an element with recorded versions next to a clause that only the commit refuses
+(a key another Concept of the type holds): refused, and the purge target's version rows are all
+still there — the destruction of version rows is a step of the write loop, after every check -/
+def histPurge : List Stmt :=
+  [{ dry := false, clauses := [.createConcept 1 1 7 1 false, .createConcept 2 2 0 2 false] },
+   { dry := false, clauses := [.update (.id ⟨.concept, 2⟩) 5 none false] }]
+example : (exec (run Store.init histPurge)
+      { dry := false, clauses := [.purge (.id ⟨.concept, 2⟩) false, .createConcept 1 1 7 9 false] }).2
+      = .refusedCheck .identityConflict ∧
+    (exec (run Store.init histPurge)
+      { dry := false, clauses := [.purge (.id ⟨.concept, 2⟩) false, .createConcept 1 1 7 9 false] }).1.vlog
+      = (run Store.init histPurge).vlog := by decide
+
 /-- A dry run never changes anything (raw collections included); only the Space sequence skips. -/
 theorem dry_run_is_noop (s : Store) (hwf : WF s) (st : Stmt) (hd : st.dry = true) :
     RawEq (exec s st).1 s ∧ (exec s st).1.seq = s.seq + 1 ∧
